@@ -41,6 +41,10 @@ Definition wf_fd (fd : stmt) : bool :=
     && Nat.eqb (List.length (ar_kwonly a)) (List.length (ar_kw_defaults a))
     && strs_distinct (map a_name (ar_args a) ++ map a_name (ar_kwonly a) ++ opt_list (kwarg_name a))
     && forallb name_ok (map a_name (ar_args a) ++ map a_name (ar_kwonly a) ++ opt_list (kwarg_name a))
+    && forallb (fun x => match a_ann x with
+                         | Some e => match rstrip_chars [nl] (show_expr e) with [] => false | _ :: _ => true end
+                         | None => true
+                         end) (ar_args a ++ ar_kwonly a)          (* an annotation has a non-empty text *)
   | _ => false
   end.
 
@@ -235,6 +239,7 @@ Inductive c07_class : Type :=
 | K_kwargs_untyped           (* a documented ** parameter whose docstring entry has no type: AssertionError *)
 | K_doc_order                (* documented names are not a prefix of the signature: documented-first order *)
 | K_self_default             (* self/cls carries a default: positional defaults shift by one *)
+| K_param_named_kwargs       (* a positional / keyword-only parameter whose name ends in "kwargs" skips _infer_default *)
 | K_raises                   (* processing a default or the return statement raises *)
 | K_unmodelled               (* outside the modelled fragment *)
 | K_default_node_left        (* str-like type and a non-constant default: the raw ast node is left in the IR *)
@@ -248,6 +253,7 @@ Definition c07_class_name (k : c07_class) : str :=
   | K_kwargs_untyped => L "kwargs-documented-untyped-asserts"
   | K_doc_order => L "documented-not-a-prefix-of-signature"
   | K_self_default => L "self-with-default-shifts-defaults"
+  | K_param_named_kwargs => L "non-star-parameter-named-kwargs"
   | K_raises => L "default-or-return-processing-raises"
   | K_unmodelled => L "unmodelled"
   | K_default_node_left => L "str-typed-code-default-left-as-node"
@@ -319,6 +325,7 @@ Definition finding_class_C07 (d : option ir) (fd : stmt) : option c07_class :=
     then Some K_kwargs_untyped
     else if negb (is_prefix (doc_pos_names d a fd) (sig_pos_names a)) then Some K_doc_order
     else if Nat.ltb (List.length (pos_args a)) (List.length (ar_defaults a)) then Some K_self_default
+    else if existsb kwargs_like (sig_pos_names a) then Some K_param_named_kwargs
     else match parse_default id_perm id_perm d fd with
          | Err Unmodelled => Some K_unmodelled
          | Err _ => Some K_raises
